@@ -12,3 +12,4 @@ from . import der  # noqa
 from . import bip340  # noqa
 from . import fs  # noqa
 from . import cli  # noqa
+from . import txser  # noqa
